@@ -221,4 +221,93 @@ def step (H : Hasher) (s : CH) : Op → CH
 
 def run (H : Hasher) (replicas : Int) (ops : List Op) : CH := ops.foldl (step H) (CH.new replicas)
 
+/-- the node an operation is about -/
+def Op.node : Op → Node
+  | .add n => n
+  | .addR n _ => n
+  | .addW n _ => n
+  | .remove n => n
+
+/-! ### a user-supplied `String()` that does not return (panic with an error / another value, runtime error, Goexit)
+
+`repr(node)` — `lang.Repr` → `String()` — is called with the lock FREE at two places: at the start of `Remove`
+(first call of every operation: nothing has happened yet) and in `AddWithReplicas` after `Remove` returned (second
+call of an adding operation: the node is removed, not yet re-inserted). All other `String()` calls (on stored nodes in
+`removeRingNode` / `insertRingNode`, on the lookup key in `Get`) run under the lock, which is released by `defer`. -/
+def faultAdd (H : Hasher) (s : CH) (n : Node) (nth : Nat) : CH := if nth ≤ 1 then s else remove H s n
+
+def stepFault (H : Hasher) (s : CH) (op : Op) (nth : Nat) : CH :=
+  match op with
+  | .remove _ => s
+  | .add n => faultAdd H s n nth
+  | .addR n _ => faultAdd H s n nth
+  | .addW n _ => faultAdd H s n nth
+
+/-! ### the users: cache.New and kv.NewStore (constructor → AddWithWeight → ring → Get) -/
+
+/-- the ring of a configuration `[(node, weight), …]`: `NewConsistentHash()`, then `AddWithWeight(node, weight)` per
+entry, in order, with the RAW configured weight -/
+def userRing (H : Hasher) (conf : List (Node × Int)) : CH :=
+  conf.foldl (fun s p => addWithWeight H s p.1 p.2) (CH.new (minReplicas : Int))
+
+/-- one iteration of `TotalWeights`: `if node.Weight < 0 { node.Weight = 0 }; weights += node.Weight` (Go int) -/
+def totalWeightsStep (acc w : Int) : Int := wrapInt (acc + (if w < 0 then 0 else w))
+
+/-- `cache.TotalWeights(c)` -/
+def totalWeights (conf : List (Node × Int)) : Int := conf.foldl (fun acc p => totalWeightsStep acc p.2) 0
+
+/-- what a constructor gives: the process is terminated (`log.Fatal`), the single node itself (cache.New with
+exactly one entry: no ring), or a cluster with its ring -/
+inductive UserInst where
+  | fatal
+  | direct (n : Node)
+  | ring (s : CH)
+
+def UserInst.isFatal : UserInst → Bool
+  | .fatal => true
+  | _ => false
+
+/-- `len(c) == 0 || TotalWeights(c) <= 0` -/
+def userFatal (conf : List (Node × Int)) : Bool := conf.length == 0 || decide (totalWeights conf ≤ 0)
+
+/-- `cache.New` -/
+def cacheNew (H : Hasher) (conf : List (Node × Int)) : UserInst :=
+  if userFatal conf then .fatal
+  else match conf with
+    | [p] => .direct p.1
+    | _ => .ring (userRing H conf)
+
+/-- `kv.NewStore`: a ring also for a single node -/
+def kvNew (H : Hasher) (conf : List (Node × Int)) : UserInst :=
+  if userFatal conf then .fatal else .ring (userRing H conf)
+
+def userNew (user : String) (H : Hasher) (conf : List (Node × Int)) : UserInst :=
+  if user = "cache" then cacheNew H conf else kvNew H conf
+
+/-- the node a key is sent to by the methods of the instance -/
+def UserInst.dispatch (H : Hasher) : UserInst → Node → Outcome
+  | .fatal, _ => .none
+  | .direct n, _ => .node n
+  | .ring s, k => get H s k
+
+/-- a Go `string` used as lookup key -/
+def strKey (k : String) : Node := { kind := "s", repr := k }
+
+/-- kv: which of the string parameters of a method (in declaration order) is the key it dispatches by:
+`Eval(script, key string, …)` has the script first, every other method the key -/
+def kvKeyIndex (method : String) : Nat := if method = "Eval" ∨ method = "EvalCtx" then 1 else 0
+
+/-- `Del(keys ...string)` of both users dispatches EVERY key on its own -/
+def multiKey (method : String) : Bool := method == "Del" || method == "DelCtx"
+
+/-- the strings of a call that are dispatched: all for `Del`, else the key parameter (cache: always the first) -/
+def callKeys (user method : String) (strs : List String) : List String :=
+  if multiKey method then strs
+  else if user = "cache" then strs.take 1
+  else (strs[kvKeyIndex method]?).toList
+
+/-- where the commands of one public-method call go: entry point → (Ctx variant) → dispatcher.Get(key) → node -/
+def callTargets (H : Hasher) (inst : UserInst) (user method : String) (strs : List String) : List Outcome :=
+  (callKeys user method strs).map fun k => inst.dispatch H (strKey k)
+
 end GoZero.C15
